@@ -19,7 +19,11 @@ func writeEvidence(cfg CheckCfg, tier string, seed int, reports []*engine.Report
 	var samples []interface{}
 	var harnesses []map[string]interface{}
 	var ifc int64
+	var crossA, crossD, crossU int64
 	for _, r := range reports {
+		crossA += r.CrossAgreed
+		crossD += r.CrossDisagreed
+		crossU += r.CrossUndecided
 		paths += r.Paths
 		completed += r.Completed
 		obl += r.Obl
@@ -94,7 +98,8 @@ func writeEvidence(cfg CheckCfg, tier string, seed int, reports []*engine.Report
 		"trusted_base":                  cfg.Trusted,
 		"inconclusive":                  inconclusive,
 		"load_and_ssa_build_s":          load.Seconds(),
-		"solver":                        "z3 4.8.12 (/usr/bin/z3 -in), one process per worker, push/pop",
+		"solver":                        "z3 4.8.12 (/usr/bin/z3 -in), one process per worker, push/pop, answers read behind a per-query echo marker; unsettled queries: one-shot race of z3 4.8.12 and z3 5.1.0",
+		"solver_cross_check":            map[string]interface{}{"what": "every 40th unsat answer of the incremental session (obligations and branch prunings) re-decided by a fresh z3 5.1.0 process, 5 s cap", "agreed": crossA, "disagreed": crossD, "undecided_in_5s": crossU},
 		"if_converted_branches":         ifc,
 		"exhaustive":                    false,
 		"explanation":                   "bounded symbolic execution of the real code from go/ssa; every obligation is an SMT query (unsat = holds for all inputs of the path)",
